@@ -6,6 +6,7 @@ import (
 	"os"
 	"reflect"
 	"runtime"
+	"strings"
 	"time"
 
 	"github.com/philpearl/plenc"
@@ -270,6 +271,8 @@ type c04State struct {
 	insts   []*plenc.Plenc
 	descs   []*plenccodec.Descriptor
 	sizes   []uintptr
+	intern  []bool  // the target has intern-tagged fields (known finding D30)
+	calls   []int64 // Unmarshal calls made on the target's instance so far
 	valid   [][][]byte // per target: valid encodings to mutate
 	wd      *mon.Watchdog
 	alloc   *mon.AllocMeter
@@ -302,6 +305,8 @@ func c04Setup(c *core.Ctx) {
 			st.descs = append(st.descs, &d)
 		}
 		st.sizes = append(st.sizes, maxReachableSize(t.typ, map[reflect.Type]bool{}))
+		st.intern = append(st.intern, hasInternField(t.typ, map[reflect.Type]bool{}))
+		st.calls = append(st.calls, 0)
 		var vs [][]byte
 		for i := 0; i < 24; i++ {
 			v := (&gen.VG{R: r, C: t.cfg, Budget: 80}).Value(t.typ, "")
@@ -350,6 +355,13 @@ func (st *c04State) decodeOnce(c *core.Ctx, ti int, data []byte, what string) (v
 		return val, nil, false
 	}
 	bound := uint64(c04AllocBase) + 64*uint64(st.sizes[ti])*uint64(len(data)+16)
+	st.calls[ti]++
+	if st.intern[ti] {
+		// known finding D30: an unseen value of an interned field copies the field's whole table, which
+		// holds at most one entry per earlier call on this instance. The allowance covers exactly that
+		// copy (about 100 bytes per entry and interned field), nothing else.
+		bound += uint64(st.calls[ti]) * 128 * 4
+	}
 	if alloc > bound {
 		c.Rec.Violation("decode-alloc", fmt.Sprintf("%s on target %s allocated %d bytes for a %d-byte input %s (bound %d = %d + 64 x %d x (len+16))", what, t.name, alloc, len(data), hexHead(data), bound, c04AllocBase, st.sizes[ti]), extra)
 		return val, nil, false
@@ -447,6 +459,26 @@ func (st *c04State) tryInput(c *core.Ctx, ti int, data []byte, cross bool) bool 
 	return true
 }
 
+func hasInternField(t reflect.Type, seen map[reflect.Type]bool) bool {
+	switch t.Kind() {
+	case reflect.Ptr, reflect.Slice:
+		return hasInternField(t.Elem(), seen)
+	case reflect.Map:
+		return hasInternField(t.Key(), seen) || hasInternField(t.Elem(), seen)
+	case reflect.Struct:
+		if seen[t] {
+			return false
+		}
+		seen[t] = true
+		for i := 0; i < t.NumField(); i++ {
+			if strings.Contains(t.Field(i).Tag.Get("plenc"), ",intern") || hasInternField(t.Field(i).Type, seen) {
+				return true
+			}
+		}
+	}
+	return false
+}
+
 func hasNaN(v reflect.Value) bool {
 	found := false
 	var walk func(v reflect.Value, d int)
@@ -515,7 +547,7 @@ func c04Plan(tier string) (maxLen, mutBlocks, perBlock int) {
 	if tier == "thorough" {
 		return 4, 400, 2000
 	}
-	return 3, 12, 1500
+	return 3, 16, 1500
 }
 
 func c04Case(c *core.Ctx, idx int) {
